@@ -1,6 +1,12 @@
 import Mdsort.Model.Header
 import Mdsort.Spec.Message
 import Mdsort.Proofs.Decode
+import Mdsort.Proofs.HeaderUnfold
+import Mdsort.Proofs.HeaderSort
+import Mdsort.Proofs.HeaderSearch
+import Mdsort.Proofs.HeaderParse
+import Mdsort.Proofs.HeaderLookup
+import Mdsort.Proofs.HeaderRewrite
 
 /-! Helper lemmas for C08 / C10 (header table, lookup, unfolding, rewriting). -/
 
@@ -13,21 +19,27 @@ def keyMatch (key : Bytes) (h : Hdr) : Bool := strcasecmp key h.key == .eq
 /-- Sortedness as produced by `sortByKey`. -/
 def KeySorted (hs : List Hdr) : Prop := hs.Pairwise (fun a b => keyLe a b = true)
 
-theorem sortByKey_sorted (hs : List Hdr) : KeySorted (sortByKey hs) := by
-  sorry
+theorem sortByKey_sorted (hs : List Hdr) : KeySorted (sortByKey hs) :=
+  List.pairwise_mergeSort keyLe_trans keyLe_total hs
 
 theorem searchHeader_spec (hs : List Hdr) (key : Bytes) (hsorted : KeySorted hs) :
     match searchHeader hs key with
     | none => hs.filter (keyMatch key) = []
     | some (i, n) => 0 < n ∧ (hs.drop i).take n = hs.filter (keyMatch key) ∧
         (∀ h ∈ hs.take i, keyMatch key h = false) ∧ (∀ h ∈ hs.drop (i + n), keyMatch key h = false) := by
-  sorry
+  have h := searchHeader_list hs key hsorted
+  cases hres : searchHeader hs key with
+  | none => rw [hres] at h; exact h
+  | some r =>
+    obtain ⟨i, n⟩ := r
+    rw [hres] at h
+    exact ⟨h.1, h.2.2⟩
 
-theorem unfoldHeader_eq_spec (v : Bytes) : unfoldHeader v = Spec.unfold v := by
-  sorry
+theorem unfoldHeader_eq_spec (v : Bytes) : unfoldHeader v = Spec.unfold v :=
+  unfoldHeader_eq_spec' v
 
-theorem unfoldHeader_no_newline (v : Bytes) : (10 : UInt8) ∉ unfoldHeader v := by
-  sorry
+theorem unfoldHeader_no_newline (v : Bytes) : (10 : UInt8) ∉ unfoldHeader v :=
+  unfoldHeader_no_newline' v
 
 /-- The table in file order, as (name, raw value) pairs. -/
 def fileOrder (m : Msg) : List (Bytes × Bytes) := (sortById m.headers).map fun h => (h.key, h.val)
@@ -35,14 +47,14 @@ def fileOrder (m : Msg) : List (Bytes × Bytes) := (sortById m.headers).map fun 
 theorem parseMessage_eq_read (m : Bytes) (fs : List (Bytes × Bytes)) (b : Bytes)
     (h : Spec.read m = some (fs, b)) :
     fileOrder (parseMessage m) = fs ∧ (parseMessage m).body = b ∧
-    (sortById (parseMessage m).headers).map (·.id) = (List.range fs.length).map (· + 1) := by
-  sorry
+    (sortById (parseMessage m).headers).map (·.id) = (List.range fs.length).map (· + 1) :=
+  parseMessage_eq_read' m fs b h
 
 theorem getHeader_eq_spec (m : Bytes) (fs : List (Bytes × Bytes)) (b : Bytes) (name : Bytes)
     (h : Spec.read m = some (fs, b)) :
     getHeader (parseMessage m) name =
-      (if (Spec.headerValues fs name).isEmpty then none else some (Spec.headerValues fs name)) := by
-  sorry
+      (if (Spec.headerValues fs name).isEmpty then none else some (Spec.headerValues fs name)) :=
+  getHeader_eq_spec' m fs b name h
 
 /-- Apply a sequence of header settings (label / add-header, in order). -/
 def applySets (m : Msg) : List (Bytes × Bytes) → Msg
@@ -54,19 +66,61 @@ def SetOk (kv : Bytes × Bytes) : Prop :=
   (∀ c ∈ kv.1, c ≠ 58 ∧ isspace c = false ∧ c ≠ 0) ∧ (∀ c ∈ kv.2, c ≠ 10 ∧ c ≠ 0) ∧
   (∀ c, kv.2.head? = some c → isblank c = false)
 
+theorem setOk_ok (kv : Bytes × Bytes) (h : SetOk kv) : KeyOk kv.1 ∧ ValOk kv.2 := by
+  obtain ⟨h1, h2, h3⟩ := h
+  refine ⟨h1, fun c hc => (h2 c hc).2, kv.2, [], ?_, fun hm => (h2 10 hm).1 rfl, h3, ?_⟩
+  · simp
+  · intro c hc; cases hc
+
+/-- The table invariant survives any sequence of settings. -/
+theorem applySets_inv (M : Msg) (kvs : List (Bytes × Bytes)) (h : TInv M.headers) :
+    TInv (applySets M kvs).headers := by
+  induction kvs generalizing M with
+  | nil => exact h
+  | cons kv rest ih =>
+    obtain ⟨k, v⟩ := kv
+    exact ih _ (setHeader_step M k v h).1
+
+/-- A sequence of settings is a chain of steps on the file-order list. -/
+theorem applySets_good (M : Msg) (kvs : List (Bytes × Bytes)) (hM : Good M)
+    (hk : ∀ kv ∈ kvs, SetOk kv) :
+    Good (applySets M kvs) ∧ (applySets M kvs).body = M.body ∧
+    Chain kvs (FO M.headers) (FO (applySets M kvs).headers) := by
+  induction kvs generalizing M with
+  | nil => exact ⟨hM, rfl, rfl⟩
+  | cons kv rest ih =>
+    obtain ⟨k, v⟩ := kv
+    obtain ⟨hk1, hv1⟩ := setOk_ok (k, v) (hk (k, v) (by simp))
+    obtain ⟨g1, b1, s1⟩ := setHeader_good M k v hM hk1 hv1
+    obtain ⟨g2, b2, c2⟩ := ih (setHeader M k v) g1 (fun kv hkv => hk kv (by simp [hkv]))
+    exact ⟨g2, b2.trans b1, _, s1, c2⟩
+
 theorem rewrite_preserves (m : Bytes) (kvs : List (Bytes × Bytes)) (hwf : Spec.WF m)
     (hk : ∀ kv ∈ kvs, SetOk kv) :
     Spec.rewriteOk m kvs (messageWrite (applySets (parseMessage m) kvs)).1 = true := by
-  sorry
+  unfold Spec.WF at hwf
+  obtain ⟨⟨fs, b⟩, hread⟩ := Option.isSome_iff_exists.mp hwf
+  obtain ⟨-, hb0, hb⟩ := read_fields_ok m fs b hread
+  obtain ⟨g0, hfo, hbody⟩ := parse_good m fs b hread
+  obtain ⟨g, hbd, hchain⟩ := applySets_good (parseMessage m) kvs g0 hk
+  rw [hfo] at hchain
+  have hbd' : (applySets (parseMessage m) kvs).body = b := hbd.trans hbody
+  have hout := write_read _ g (by rw [hbd']; exact hb0) (by rw [hbd']; exact hb)
+  rw [hbd'] at hout
+  exact chain_rewriteOk m _ kvs fs _ b hread hout hchain
 
 theorem second_write_same (m : Bytes) (kvs : List (Bytes × Bytes)) :
     let w := messageWrite (applySets (parseMessage m) kvs)
     (messageWrite w.2).1 = w.1 := by
-  sorry
+  intro w
+  have : w.2 = applySets (parseMessage m) kvs :=
+    messageWrite_snd _ (applySets_inv _ kvs (TInv_parseHeaders _))
+  rw [this]
 
 theorem lookup_after_write (m : Bytes) (kvs : List (Bytes × Bytes)) (name : Bytes) :
     let msg := applySets (parseMessage m) kvs
     getHeader (messageWrite msg).2 name = getHeader msg name := by
-  sorry
+  intro msg
+  rw [messageWrite_snd msg (applySets_inv _ kvs (TInv_parseHeaders _))]
 
 end Mdsort.Proofs
